@@ -671,8 +671,77 @@ func runC02(c *Ctx) {
 				cc := CC(in)
 				return IsFieldLoad(cc.Args[1], "callbackOnFinishSchedule", "onFinish")
 			}
+			// ... or the hand-written once: a method of the wrapper that calls onFinish with a mutex of the struct held, only
+			// where a bool flag of the struct is false, after setting that flag (under the same lock); the flag is never
+			// written otherwise. A call of such a gate is a Once.Do.
+			gateCall := map[*ssa.Function]ssa.Instruction{}
+			isMu := func(v ssa.Value) bool { p, n := NamedOf(v.Type()); return p == "sync" && (n == "Mutex" || n == "RWMutex") }
+			for _, g := range PkgFuncs(cbNext.Pkg) {
+				var call ssa.Instruction
+				nCalls := 0
+				EachInstr(g, func(in ssa.Instruction) {
+					if cc := CC(in); cc != nil && !cc.IsInvoke() && IsFieldLoad(cc.Value, "callbackOnFinishSchedule", "onFinish") {
+						call = in
+						nCalls++
+					}
+				})
+				if nCalls != 1 {
+					continue
+				}
+				if _, isGo := call.(*ssa.Go); isGo {
+					continue
+				}
+				ls := NewLocksets(g, isMu)
+				if !ls.Before[call].W {
+					continue
+				}
+				var flag *types.Var
+				for _, bf := range BoolFactsAt(call) {
+					if fv, _ := FieldOf(bf.Subj); fv != nil && !bf.Val {
+						if b, isB := fv.Type().Underlying().(*types.Basic); isB && b.Kind() == types.Bool {
+							flag = fv
+						}
+					}
+				}
+				if flag == nil {
+					continue
+				}
+				setBefore, onlyHere := false, true
+				for _, h := range PkgFuncs(cbNext.Pkg) {
+					EachInstr(h, func(in ssa.Instruction) {
+						st, isSt := in.(*ssa.Store)
+						if !isSt {
+							return
+						}
+						if fv, _ := FieldOf(st.Addr); fv != flag {
+							return
+						}
+						val, isC := ConstCond(st.Val)
+						if h != g || !isC || !val || !ls.Before[in].W {
+							onlyHere = false
+							return
+						}
+						if InstrDominates(in, call) {
+							setBefore = true
+						}
+					})
+				}
+				if setBefore && onlyHere {
+					gateCall[g] = call
+				}
+			}
+			isGate := func(in ssa.Instruction) bool {
+				cc := CC(in)
+				if cc == nil || cc.StaticCallee() == nil {
+					return false
+				}
+				if _, isGo := in.(*ssa.Go); isGo {
+					return false
+				}
+				return gateCall[cc.StaticCallee()] != nil
+			}
 			w0 := func(in ssa.Instruction) (int, int) {
-				if isDo(in) {
+				if isDo(in) || isGate(in) {
 					return 1, 1
 				}
 				return 0, 0
@@ -759,7 +828,7 @@ func runC02(c *Ctx) {
 							if _, isDbg := r.(*ssa.DebugRef); isDbg {
 								continue
 							}
-							if !isDo(r) {
+							if !isDo(r) && gateCall[g] != r {
 								okUse = false
 							}
 						}
